@@ -35,6 +35,10 @@ func (acc *DB) GenesisInit(addr string, amount int64) (receipt *types.Receipt, e
 
 // GenesisInitExec 生成创世地址执行器账户收据
 func (acc *DB) GenesisInitExec(addr string, amount int64, execaddr string) (receipt *types.Receipt, err error) {
+	//先判断合约子账户不会溢出, 保证下面的存款不会失败
+	if _, err = addExecAmount(acc.LoadExecAccount(addr, execaddr).GetBalance(), amount); err != nil {
+		return nil, err
+	}
 	accTo := acc.LoadAccount(execaddr)
 	copyto := types.CloneAccount(accTo)
 	accTo.Balance, err = safeAdd(accTo.GetBalance(), amount)
